@@ -8,7 +8,7 @@
     [None] would be undefined behaviour of the C.  Spec/RealFiltersSpec.v: [doc_<filter>] is the documented outcome
     ([None]: outside the documented domain), [same_obs o d]: result, the attributed level (for a refusal), own reply
     and check2822 flag agree. *)
-From Qv Require Import Common.Bytes Gen.GenFilters Model.Filters Model.RealFilters Model.LoadFile Spec.FiltersSpec
+From Qv Require Import Common.Bytes Gen.GenFilters Model.Filters Model.RealFilters Model.LoadFile Model.MatchNet Spec.FiltersSpec
   Spec.ControlSpec Spec.RealFiltersSpec Proofs.RealFiltersProofs.
 Local Open Scope bool_scope.
 
@@ -142,7 +142,7 @@ Print Assumptions C12_dnsbl.
 
 (** the code as shipped: third list hits, the one-entry whitelist hits: strlen() of what lies behind the array *)
 Theorem C12_dnsbl_unfixed_refuted :
-  let s := mk_rsession false true false false false 0 0 [102; 64; 101; 120; 97; 109; 112; 108; 101; 46; 111; 114; 103]%N [104; 46; 101; 120; 97; 109; 112; 108; 101; 46; 110; 101; 116]%N (repeat 0%N 16) [] [0; 0; 1; 1]%N 0 in
+  let s := mk_rsession false true false false false 0 0 [102; 64; 101; 120; 97; 109; 112; 108; 101; 46; 111; 114; 103]%N [104; 46; 101; 120; 97; 109; 112; 108; 101; 46; 110; 101; 116]%N (repeat 0%N 16) [] [0; 0; 1; 1]%N 0 0 [] in
   let fs := [(1%N, NAME_DNSBL, [97; 46; 101; 120; 97; 109; 112; 108; 101; 46; 110; 101; 116; 10; 98; 46; 101; 120; 97; 109; 112; 108; 101; 46; 110; 101; 116; 10; 99; 46; 101; 120; 97; 109; 112; 108; 101; 46; 110; 101; 116; 10]%N);
              (1%N, NAME_WHITEDNSBL, [119; 46; 101; 120; 97; 109; 112; 108; 101; 46; 110; 101; 116; 10]%N)] in
   cb_dnsbl_gen false s fs = None /\ exists d, doc_dnsbl s fs = Some d /\ d_res d = FPassed.
@@ -157,19 +157,36 @@ Proof. exact namebl_doc. Qed.
 Print Assumptions C12_namebl.
 
 Theorem C12_namebl_unfixed_refuted :
-  let s := mk_rsession false true false false false 0 0 [102; 64; 101; 120; 97; 109; 112; 108; 101; 46; 111; 114; 103]%N [104; 46; 101; 120; 97; 109; 112; 108; 101; 46; 110; 101; 116]%N (repeat 0%N 16) [] [] (-22) in
+  let s := mk_rsession false true false false false 0 0 [102; 64; 101; 120; 97; 109; 112; 108; 101; 46; 111; 114; 103]%N [104; 46; 101; 120; 97; 109; 112; 108; 101; 46; 110; 101; 116]%N (repeat 0%N 16) [] [] (-22) 0 [] in
   cb_namebl_gen true s [] = None /\ exists d, doc_namebl s [] = Some d /\ d_res d = FPassed.
 Proof. cbv zeta. split; [vm_compute; reflexivity|]. eexists. split; [vm_compute; reflexivity|reflexivity]. Qed.
 Print Assumptions C12_namebl_unfixed_refuted.
+
+(** cb_fromdomain for every MX list (addresses of 16 octets): with the effective global setting u > 0 - no mail
+    exchanger known and bit 1 (value 1): refused with the filter's own reply chosen by the result of the MX lookup
+    (temporary error: 451 4.4.3; NXDOMAIN, no MX, null MX: 501 5.1.8); mail exchangers known and bit 2 or 3 (values 2,
+    4): refused with 501 5.4.0 exactly when every address is unroutable in the sense of the bits set: bit 3 private
+    (the tables reserved_netsv4 / reserved_netsv6 read as networks in C16's sense, IPv6 link- and site-local),
+    bit 2 localhost (0/8, 127/8, ::1, ::). *)
+Theorem C12_fromdomain : forall s uc dc gc d,
+  Forall (fun a => length a = 16) (r_mx s) -> Forall bytes_ok (r_mx s) ->
+  doc_fromdomain s uc dc gc = Some d -> exists o, cb_fromdomain s uc dc gc = Some o /\ same_obs o d.
+Proof. exact fromdomain_doc. Qed.
+Print Assumptions C12_fromdomain.
+
+(** the per-address test of cb_fromdomain (ip4_matchnet / ip6_matchnet over the tables) is [doc_unroutable] *)
+Theorem C12_fromdomain_address : forall u a, length a = 16 -> bytes_ok a -> fd_addr_hit u a = Some (doc_unroutable u a).
+Proof. exact fd_addr_doc. Qed.
+Print Assumptions C12_fromdomain_address.
 
 (** ---- the tie: the checker run on every C output of the rfilters engine ---- *)
 
 (** wherever the documentation defines the outcome of a case (raw case fields: filter id, session, files), the model
     of the case produces exactly that observation - so a C output that agrees with the model satisfies the
     documentation, and one the checker calls bad deviates from it *)
-Theorem C12_filters_checker_sound : forall id misc mf helo ip rcpts dns files d,
-  rf_doc_case id misc mf helo ip rcpts dns files = Some d ->
-  exists o, rf_case id misc mf helo ip rcpts dns files = RDone o /\ obs_of_fout o = d.
+Theorem C12_filters_checker_sound : forall id misc mf helo ip rcpts dns mx files d,
+  rf_doc_case id misc mf helo ip rcpts dns mx files = Some d ->
+  exists o, rf_case id misc mf helo ip rcpts dns mx files = RDone o /\ obs_of_fout o = d.
 Proof. exact rf_checker_sound. Qed.
 Print Assumptions C12_filters_checker_sound.
 
